@@ -319,6 +319,26 @@ def run(tier, seed):
         elif sig in seen and repr(V.canon_doc(list(seen[sig]))) != repr(V.canon_doc(list(st))):
             rep.violate("variable states %r and %r share signature %s" % (seen[sig], st, sig and sig[:10]), {"kind": "vars", "state": repr(st)}, mechanism="variables-state-collision")
         seen.setdefault(sig, st)
+    # ... and a variable whose value cannot be hashed ends in the coded error, whichever way the function spells the read
+    from dds.structures import DDSException
+
+    n_default = dds.get_option("hash.max_sequence_size")
+    dds.set_option("hash.max_sequence_size", 3)
+    for label, value, code in (("a list longer than hash.max_sequence_size", [1, 2, 3, 4, 5], "SEQUENCE_TOO_LONG"), ("a nested list longer than the bound", [[0, 1, 2, 3, 4]], "SEQUENCE_TOO_LONG"),
+                               ("a list holding an object of an unsupported type", [1, {2, 3}], "TYPE_NOT_SUPPORTED")):
+        c05vars_a.BATCH, c05vars_b.BATCH, c05vars_a.OTHER = value, 0, 0
+        rep.count("variable_states")
+        try:
+            r = dds.keep("/pv2", combined_vars)
+            rep.violate("a function reading a module variable (through its module) that holds %s was evaluated (%r) instead of ending in the coded error %s" % (label, r, code), {"kind": "vars", "state": repr(value)}, mechanism="variable-unhashable-value-ignored")
+        except DDSException as e:
+            got = getattr(getattr(e, "error_code", None), "name", None)
+            if got != code:
+                rep.violate("a function reading a module variable that holds %s ended in the DDS error %s, expected %s" % (label, got, code), {"kind": "vars", "state": repr(value)}, mechanism="uncoded-dds-error")
+        except BaseException as e:
+            rep.violate("a function reading a module variable that holds %s raised low-level %s" % (label, type(e).__name__), {"kind": "vars", "state": repr(value)}, mechanism="variable-lowlevel-error")
+    dds.set_option("hash.max_sequence_size", n_default)
+    c05vars_a.BATCH, c05vars_b.BATCH, c05vars_a.OTHER = 1, 2, 0
     for v in vals[:3] + vals[-3:]:
         rep.sample({"value": V.short(v), "canon": V.short(V.canon_doc(v))})
     for a, b, m in colliding_pairs[:3]:
